@@ -2,9 +2,14 @@ package blockscan
 
 import (
 	"context"
+	"errors"
 
 	"github.com/kklash/bitcoinlib/unspent"
 )
+
+// ErrStreamEndedEarly is returned by UpdateUtxos if the block stream
+// ended before the last block of the requested range was scanned.
+var ErrStreamEndedEarly = errors.New("block stream ended before the end of the requested range")
 
 // UpdateUtxos scans the given block range for UTXOs belonging to the given set of scriptPubKeys,
 // starting at startBlockHeight and ending before endBlockHeight (exclusive range). It updates
@@ -28,6 +33,16 @@ func (scanner *BlockScanner) UpdateUtxos(
 		block, err := getNextBlock()
 		if err != nil {
 			return err
+		}
+
+		if block == nil {
+			// The stream was closed before scanBlockHeight was reached,
+			// which happens when the context is cancelled.
+			if err := ctx.Err(); err != nil {
+				return err
+			}
+
+			return ErrStreamEndedEarly
 		}
 
 		if err := utxos.UpdateFromBlock(block, scriptPubKeys); err != nil {
